@@ -102,3 +102,11 @@ package compressor
 //@   ensures[output_not_shared] err == nil && len(out) > 0 ==> fresh(out)
 //@   ensures[algo] err == nil ==> ghost("algo") == old(c.compressorType)
 //@   modifies *
+
+// Interface-level contract used by callers of a Compressor (assumed there; the snappy
+// implementation used by the storage engine satisfies the size bound: snappy.MaxEncodedLen).
+//@ trusted func (Compressor).Compress(c, data) (out, err)
+//@   ensures err == nil ==> len(out) <= 32 + len(data) + len(data) / 6
+//@   ensures err == nil && len(out) > 0 ==> fresh(out)
+//@ trusted func (Compressor).Decompress(c, data) (out, err)
+//@   ensures err == nil && len(out) > 0 ==> fresh(out)
